@@ -278,6 +278,40 @@ def _rule_r25(text, log, types):
     return ''.join(out)
 
 
+def _rule_r26(text, log):
+    """`[e1, .., en].iter().fold(f64::NEG_INFINITY, |a, &b| a.max(b))`  ->  the left fold written out:
+    `({ let __f0: f64 = NEG_INFINITY; let __f1 = __f0.max(e1); ..; __fn })` (definition of Iterator::fold)."""
+    n = 0
+    while True:
+        m = rs.mask(text)
+        mm = re.search(r'\]\s*\.iter\(\)\s*\.fold\(\s*f64::NEG_INFINITY\s*,\s*\|\s*([a-z_]+)\s*,\s*&\s*([a-z_]+)\s*\|\s*\1\.max\(\s*\2\s*\)\s*\)', m)
+        if not mm:
+            break
+        cb = mm.start()
+        # matching '[' backwards
+        depth, i = 0, cb
+        while i >= 0:
+            if m[i] == ']':
+                depth += 1
+            elif m[i] == '[':
+                depth -= 1
+                if depth == 0:
+                    break
+            i -= 1
+        if i < 0:
+            raise Unsupported('R26: array literal not found')
+        elems = _split_top(text[i + 1:cb])
+        parts = ['let __f0: f64 = NEG_INFINITY;']
+        for k, e in enumerate(elems):
+            parts.append('let __f%d = __f%d.max(%s);' % (k + 1, k, e))
+        rep = '({ ' + ' '.join(parts) + ' __f%d })' % len(elems)
+        text = text[:i] + rep + text[mm.end():]
+        n += 1
+    if n:
+        log.append(('R26', n))
+    return text
+
+
 _UNARY_PREV = set('(,=[{;<>+-*/%!&|:?')
 
 
@@ -848,6 +882,8 @@ def apply_rewrites(text, log, rules, keep_eq=False):
         text = _rule_r18(text, log)
     if 'R24' in rules:
         text = _rule_r24(text, log)
+    if 'R26' in rules:
+        text = _rule_r26(text, log)
     if 'R20' in rules:
         text = _rule_r20(text, log)
     if 'R23' in rules:
